@@ -52,6 +52,7 @@ func checkLife(h Handler, o lifeObs, when string) {
 // the lifecycle rules of C17.
 func lifecycle(mk func() Handler, inbox []*Message, bad *Message, ssid []byte) {
 	h := mk()
+	vsym.Consumed(h.Listen()) // the application reads Listen() concurrently (one Accept can emit more than the buffer holds)
 	vsym.Watch(h)
 	phase := vsym.Choose("phase", 3)
 	switch phase {
